@@ -57,6 +57,8 @@ func c04PITMetadata(rt *rapid.T, c *evid.Collector) {
 	var evs []c04Event
 	nTx := 0
 	accs := []string{"alice", "bank:eu"}
+	// the metadata key the filtered reads ask for: metadata keys are free text (brackets included)
+	fk := rapid.SampledFrom([]string{"k", "k", "i[0]", "r]2", "a[b]c]"}).Draw(rt, "pmFilterKey")
 	for i := 0; i < n; i++ {
 		at := base.Add(time.Duration(i) * time.Hour)
 		kind := rapid.SampledFrom([]string{"tx", "tx", "tx-set", "tx-set", "tx-del", "acc-set", "acc-set", "acc-del"}).Draw(rt, "pmKind")
@@ -71,15 +73,15 @@ func c04PITMetadata(rt *rapid.T, c *evid.Collector) {
 			e.eff = at.Add(time.Duration(rapid.SampledFrom([]int{0, 0, -30, -3, 3, 30}).Draw(rt, "pmEffOffset")) * time.Hour)
 			e.meta = map[string]string{}
 			if rapid.Bool().Draw(rt, "pmInitialMeta") {
-				e.meta["k"] = rapid.SampledFrom([]string{"v", "w"}).Draw(rt, "pmInitialValue")
+				e.meta[fk] = rapid.SampledFrom([]string{"v", "w"}).Draw(rt, "pmInitialValue")
 			}
 		case "tx-set", "tx-del":
 			e.tx = rapid.IntRange(0, nTx-1).Draw(rt, "pmTx")
-			e.key = rapid.SampledFrom([]string{"k", "j"}).Draw(rt, "pmKey")
+			e.key = rapid.SampledFrom([]string{fk, "j"}).Draw(rt, "pmKey")
 			e.val = rapid.SampledFrom([]string{"v", "w", "x"}).Draw(rt, "pmVal")
 		default:
 			e.acc = rapid.SampledFrom(accs).Draw(rt, "pmAcc")
-			e.key = rapid.SampledFrom([]string{"k", "j"}).Draw(rt, "pmKey")
+			e.key = rapid.SampledFrom([]string{fk, "j"}).Draw(rt, "pmKey")
 			e.val = rapid.SampledFrom([]string{"v", "w", "x"}).Draw(rt, "pmVal")
 		}
 		evs = append(evs, e)
@@ -221,7 +223,7 @@ func c04PITMetadata(rt *rapid.T, c *evid.Collector) {
 		violation(rt, c, sig, format, args...)
 	}
 	metaString := func(m map[string]string) string { return string(c04MetaJSON(m)) }
-	filterMatches := func(m map[string]string) bool { return m["k"] == "v" }
+	filterMatches := func(m map[string]string) bool { return m[fk] == "v" }
 	switch what {
 	case "tx":
 		if nTx == 0 {
@@ -255,7 +257,7 @@ func c04PITMetadata(rt *rapid.T, c *evid.Collector) {
 	case "tx-list", "tx-list-filtered":
 		opts := ledgerstore.NewPaginatedQueryOptions(ledgerstore.PITFilterWithVolumes{PITFilter: ledgerstore.PITFilter{PIT: &lpit}})
 		if what == "tx-list-filtered" {
-			opts = opts.WithQueryBuilder(query.Match("metadata[k]", "v"))
+			opts = opts.WithQueryBuilder(query.Match("metadata["+fk+"]", "v"))
 		}
 		// the client reads the list page by page (sometimes in one page): forward to the end, then back to the start
 		pageSize := rapid.SampledFrom([]int{50, 1, 1, 2, 3}).Draw(rt, "pmPageSize")
@@ -350,7 +352,7 @@ func c04PITMetadata(rt *rapid.T, c *evid.Collector) {
 	default:
 		opts := ledgerstore.NewPaginatedQueryOptions(ledgerstore.PITFilterWithVolumes{PITFilter: ledgerstore.PITFilter{PIT: &lpit}}).WithPageSize(50)
 		if what == "account-list-filtered" {
-			opts = opts.WithQueryBuilder(query.Match("metadata[k]", "v"))
+			opts = opts.WithQueryBuilder(query.Match("metadata["+fk+"]", "v"))
 		}
 		cur, err := store.GetAccountsWithVolumes(ctx, ledgerstore.NewGetAccountsQuery(opts))
 		if len(eng.Unhandled) > 0 {
